@@ -107,3 +107,17 @@ W("zonal:crop", "values", identity=False, props=("C18",),
 
 # ---- generators that take a template raster: same dims / coords / attrs
 W("perlin:perlin", "agg", props=("C10",))
+
+# ---- C19: circle / annulus kernels in terms of the (proved) ellipse mask
+OPAQUE_EXTRA = {"convolution:_get_distance"}
+_R = "_get_distance(str(%s))"
+_CK = "_ellipse_kernel(int(%s / cellsize_x), int(%s / cellsize_y))"
+W("convolution:circle_kernel", None, identity=False, props=("C19",),
+  numpy=_CK % (_R % "radius", _R % "radius"))
+_KO = _CK % (_R % "outer_radius", _R % "outer_radius")
+_KI = _CK % (_R % "inner_radius", _R % "inner_radius")
+_PV = "(np.array((%s).shape) - np.array((%s).shape))" % (_KO, _KI)
+W("convolution:annulus_kernel", None, identity=False, props=("C19",),
+  # outer circle minus the inner circle padded symmetrically (half of the shape difference on each side), zeros outside
+  numpy="%s - np.pad(%s, pad_width=((%s[0] // 2, %s[0] // 2), (%s[1] // 2, %s[1] // 2)), mode='constant', constant_values=0)"
+        % (_KO, _KI, _PV, _PV, _PV, _PV))
